@@ -334,8 +334,95 @@ func rsDuringCallScenario(kind string, buf uint) func() {
 	}
 }
 
+// rsCancelledSendScenario: history before the outage - a call's context ends while its write is blocked on a
+// full transport window (the server has stopped reading: a handler never releases), so the library cancels
+// the node's stream itself. Then the node crashes and listens again, every back-off timer expires, and a
+// call is issued: it must be delivered to the new incarnation, and once that has replied the call has the reply.
+func rsCancelledSendScenario(kind, victim string, restart bool) func() {
+	return func() {
+		w := world.New(world.Opts{N: 1, Window: 1})
+		if w.Cfg == nil {
+			return
+		}
+		blockers := map[int]bool{}
+		w.Handle = func(h *world.HCtx) world.Reply {
+			if blockers[h.Tok] {
+				world.Block()
+			}
+			return world.Reply{}
+		}
+		mk := func(kind string) *world.Call {
+			c := w.NewCall(kind)
+			if kind == "GRPCCall" || kind == "Unicast" {
+				c.Node = 1
+			}
+			c.Verdict = func(inv *world.QFInv) { inv.Level = len(inv.Keys); inv.Quorum = len(inv.Keys) >= 1 }
+			return c
+		}
+		for i := 0; i < 2; i++ { // one message in the never-releasing handler, one filling the window
+			x := mk("Unicast")
+			x.NoSendWaiting = true
+			x.Ctx = context.Background()
+			blockers[x.Tok] = true
+			w.Start(x)
+			mc.Quiesce()
+		}
+		v := mk(victim)
+		blockers[v.Tok] = true
+		w.Start(v)
+		mc.Quiesce() // the victim's write is blocked
+		v.Cancel(context.Canceled)
+		mc.Quiesce()
+		settle := func() {
+			for i := 0; i < 5 && mc.FireTimers(nil) > 0; i++ {
+				mc.Quiesce()
+			}
+		}
+		settle()
+		if restart {
+			w.FW.Crash(world.Addr(1))
+			mc.Quiesce()
+			w.FW.Restart(world.Addr(1))
+			mc.Quiesce()
+			settle()
+		}
+		c := mk(kind)
+		c.Ctx = context.Background()
+		w.Start(c)
+		mc.Quiesce()
+		name := fmt.Sprintf("restart/after-a-send-cancelled-by-its-context/%s-then-%s/restart=%v", victim, kind, restart)
+		key := classOf(kind) + "/after-cancelled-send"
+		if w.Entered(1, c.Tok) == 0 {
+			settle() // (a) is eventual
+		}
+		handled := false
+		for _, e := range w.EventsOf("exit", 1) {
+			if e.Tok == c.Tok && e.Inc == w.FW.Eps[world.Addr(1)].Inc {
+				handled = true
+			}
+		}
+		done, err := callDone(c)
+		switch {
+		case w.Entered(1, c.Tok) == 0:
+			fail("C10/not-contacted", key, "%s: node 1 listens (incarnation %d) but the call was not delivered to it (returned=%v err=%v)", name, w.FW.Eps[world.Addr(1)].Inc, c.Returned, c.Err)
+		case handled && !done:
+			fail("C10/reply-waits-for-backoff", key, "%s: the server has handled the request and sent its reply, but the call has not received it (%d timers armed)", name, mc.PendingTimers())
+		case handled && err != nil && !world.IsOneWay(kind):
+			fail("C10/call-failed", key, "%s: the node handled the request but the call failed: %v", name, err)
+		}
+		mc.Outcome("handled=%v done=%v", handled, done)
+	}
+}
+
 func rsInstances(tier string) []Instance {
 	var out []Instance
+	for _, kind := range []string{"GRPCCall", "QuorumCall", "QuorumCallAsync", "Correctable"} {
+		for _, victim := range []string{"GRPCCall", "QuorumCall", "Unicast"} {
+			for _, restart := range []bool{false, true} {
+				out = append(out, Instance{Name: fmt.Sprintf("restart/after-a-send-cancelled-by-its-context/%s-then-%s/restart=%v", victim, kind, restart), Bound: 1, Root: rsCancelledSendScenario(kind, victim, restart)})
+			}
+		}
+	}
 	for _, kind := range []string{"GRPCCall", "QuorumCall", "QuorumCallAsync"} {
 		for _, buf := range []uint{0, 1} {
 			if buf == 1 && kind != "GRPCCall" && !thorough(tier) {
@@ -446,7 +533,7 @@ func rsInstances(tier string) []Instance {
 
 func init() {
 	register(&Check{ID: "C10",
-		Rule:        "fault-sequence enumeration: every script of length <= 4 (5 thorough) over {stop, start, call} that ends with a call, for node 1 initially up or down (down at manager creation included), x call kind {RPC, quorum call on 1 or 2 nodes, unicast, unicast and multicast with no-send-waiting} x back-off timers {fired to the horizon after every stop/start, never, or - as a free choice after every event - nothing / only the shortest armed timer / all} x dial mode {non-blocking, blocking}; manager with general and per-node metadata, servers with a connect callback; after each call the script observes at quiescence WITHOUT firing a timer; plus a family in which 1-2 calls are issued during an outage and the node is restarted by an adversary thread at any instant of a script-chosen round (in particular between two steps of a reconnect attempt), optionally with a second adversary thread that lets the armed back-off timers expire at any instant, after which a probe call must be delivered and answered; plus a family in which the node crashes and listens again (adversary thread) while a call is being issued - if the restarted server handled the request and replied, the call must get that reply; oracle: (a) a call issued while the node listens is delivered to its current incarnation, (b) once that incarnation's handler has returned the call has its reply with no back-off timer fired, (c) every accepted stream carries both metadata entries and triggers the connect callback exactly once; all schedules within the deviation bound inside each event; an outcome is (instance, accepted streams, incarnations)",
+		Rule:        "fault-sequence enumeration: every script of length <= 4 (5 thorough) over {stop, start, call} that ends with a call, for node 1 initially up or down (down at manager creation included), x call kind {RPC, quorum call on 1 or 2 nodes, unicast, unicast and multicast with no-send-waiting} x back-off timers {fired to the horizon after every stop/start, never, or - as a free choice after every event - nothing / only the shortest armed timer / all} x dial mode {non-blocking, blocking}; manager with general and per-node metadata, servers with a connect callback; after each call the script observes at quiescence WITHOUT firing a timer; plus a family in which 1-2 calls are issued during an outage and the node is restarted by an adversary thread at any instant of a script-chosen round (in particular between two steps of a reconnect attempt), optionally with a second adversary thread that lets the armed back-off timers expire at any instant, after which a probe call must be delivered and answered; plus a family whose history before the outage is a call whose context ended while its write was blocked (the library cancels the stream itself), with and without a crash and restart afterwards; plus a family in which the node crashes and listens again (adversary thread) while a call is being issued - if the restarted server handled the request and replied, the call must get that reply; oracle: (a) a call issued while the node listens is delivered to its current incarnation, (b) once that incarnation's handler has returned the call has its reply with no back-off timer fired, (c) every accepted stream carries both metadata entries and triggers the connect callback exactly once; all schedules within the deviation bound inside each event; an outcome is (instance, accepted streams, incarnations)",
 		Gen:         rsInstances,
 		Assumptions: []string{"a crash breaks the node's streams immediately (fakegrpc), so the client has noticed the outage at the next quiescent point", "'promptly / never waits out a back-off timer' is decided untimed: no virtual timer is fired between the call and the observation"},
 	})
